@@ -20,6 +20,10 @@ class SRecord:
 
     def to_line(self) -> str:
         addr_size = self.address_byte_sizes[self.typ]
+        if not 0 <= self.address < (1 << (8 * addr_size)):
+            raise ValueError(
+                f"Address {self.address} does not fit in S{self.typ} record"
+            )
         addr_data = value_to_bytes_big_endian(self.address, addr_size)
         data = addr_data + self.data
 
@@ -38,13 +42,26 @@ class SRecord:
 
 def write_srecord(obj, f):
     """Write object to srecord"""
-    data = obj.get_section("code").data
-    record = SRecord(1, 0, b"HDR")
+    section = obj.get_section("code")
+    data = section.data
+    address = section.address
+    end_address = address + len(data)
+    if end_address > 0x100000000:
+        raise ValueError("Code does not fit in a 32 bit address space")
+
+    # Select the record types which can hold the highest address:
+    if end_address <= 0x10000:
+        data_type, end_type = 1, 9
+    elif end_address <= 0x1000000:
+        data_type, end_type = 2, 8
+    else:
+        data_type, end_type = 3, 7
+
+    record = SRecord(0, 0, b"HDR")
     print(record.to_line(), file=f)
-    address = 0
     for chunk in chunks(data):
-        record = SRecord(1, address, chunk)
+        record = SRecord(data_type, address, chunk)
         print(record.to_line(), file=f)
         address += len(chunk)
-    record = SRecord(9, 0, bytes())
+    record = SRecord(end_type, 0, bytes())
     print(record.to_line(), file=f)
